@@ -68,6 +68,17 @@ def regen_tables():
         rc, out = sh([sys.executable, os.path.join(ROOT, "translator", "extract.py"),
                       os.path.join(LEAN, "TgModel", "Generated", "Tables.lean"),
                       os.path.join(BUILD, "tables.json")], env={"VERIF_REPO": REPO})
+        if rc == 0:
+            # documented grammar (syntax.md + rule comments) and the asts! accessor table (also generates the Rust walker)
+            for script, outs in (("extract_grammar.py", [os.path.join(BUILD, "tables.json"), os.path.join(LEAN, "TgModel", "Generated", "DocGrammar.lean"),
+                                                         os.path.join(BUILD, "docgrammar.json")]),
+                                 ("extract_ast.py", [os.path.join(LEAN, "TgModel", "Generated", "AstTable.lean"),
+                                                     os.path.join(HARNESS, "src", "ast_walk_gen.rs"), os.path.join(BUILD, "asttable.json")])):
+                rc2, out2 = sh([sys.executable, os.path.join(ROOT, "translator", script)] + outs, env={"VERIF_REPO": REPO})
+                out += "\n" + out2
+                if rc2 != 0:
+                    rc = rc2
+                    break
     return rc == 0, out.strip()
 
 
